@@ -82,6 +82,28 @@ MUTANTS: List[dict] = [
     _m("c04-sketch-name-from-set", "C04", "handler.py", "    msg.gateway.alert(msg)\n\n    # Check if reboot is true", "    sensor.sketch_name = msg.payload\n    msg.gateway.alert(msg)\n\n    # Check if reboot is true", "sketch_name"),
     _m("c04-add-sensor-from-set", "C04", "handler.py", "    if not msg.gateway.is_sensor(msg.node_id, msg.child_id):\n        return None\n\n    sensor = msg.gateway.sensors[msg.node_id]\n\n    sensor.update_child_value(", "    msg.gateway.add_sensor(msg.node_id)\n    if not msg.gateway.is_sensor(msg.node_id, msg.child_id):\n        return None\n\n    sensor = msg.gateway.sensors[msg.node_id]\n\n    sensor.update_child_value(", "add_sensor"),
     _m("c04-benign-early-return-inverted", "C04", "handler.py", "    if not msg.gateway.is_sensor(msg.node_id):\n        return None\n    msg.gateway.sensors[msg.node_id].sketch_version = msg.payload\n    msg.gateway.alert(msg)\n    return None", "    if msg.gateway.is_sensor(msg.node_id):\n        msg.gateway.sensors[msg.node_id].sketch_version = msg.payload\n        msg.gateway.alert(msg)\n    return None", "", silent=True),
+    # ------------------------------------------------------------------ C07
+    _m("c07-router-ignores-sleep", "C07", "__init__.py", "            or msg.type == self.const.MessageType.stream\n            or not self.sensors[msg.node_id].is_smart_sleep_node\n", "            or msg.type == self.const.MessageType.stream\n            or self.sensors[msg.node_id].reboot\n            or not self.sensors[msg.node_id].is_smart_sleep_node\n", "C07-R2"),
+    _m("c07-router-exempts-internal", "C07", "__init__.py", "            or msg.type == self.const.MessageType.stream\n", "            or msg.type == self.const.MessageType.stream\n            or msg.type == self.const.MessageType.internal\n", "C07-R2"),
+    _m("c07-router-wrong-queue", "C07", "__init__.py", "        self.sensors[msg.node_id].queue.append(msg.encode())", "        self.sensors[msg.child_id].queue.append(msg.encode())", "C07-R2"),
+    _m("c07-logic-skips-router", "C07", "__init__.py", "        reply = handler(msg)\n        reply = self._route_message(reply)\n        return reply.encode() if reply else None", "        reply = handler(msg)\n        if reply is not None and reply.sub_type == self.const.Internal.I_REBOOT:\n            return reply.encode()\n        reply = self._route_message(reply)\n        return reply.encode() if reply else None", "passed the router"),
+    _m("c07-is_sensor-unrouted", "C07", "__init__.py", "            if self._route_message(msg):\n                self.tasks.add_job(msg.encode)", "            self.tasks.add_job(msg.encode)", "is_sensor"),
+    _m("c07-set_child_value-sends-when-sleeping", "C07", "__init__.py", "            sensor.set_child_desired_state(child_id, value_type, value)\n            return\n", "            sensor.set_child_desired_state(child_id, value_type, value)\n", "C07-R"),
+    _m("c07-flush-from-battery", "C07", "handler.py", "    msg.gateway.sensors[msg.node_id].battery_level = msg.payload\n    msg.gateway.alert(msg)", "    msg.gateway.sensors[msg.node_id].battery_level = msg.payload\n    handle_smartsleep(msg)\n    msg.gateway.alert(msg)", "C07-R3"),
+    _m("c07-heartbeat22-flushes", "C07", "handler.py", "    msg.gateway.sensors[msg.node_id].heartbeat = msg.payload\n    msg.gateway.alert(msg)\n    return None\n\n\n@HANDLERS_22.register(\"I_PRE_SLEEP", "    handle_smartsleep(msg)\n    msg.gateway.sensors[msg.node_id].heartbeat = msg.payload\n    msg.gateway.alert(msg)\n    return None\n\n\n@HANDLERS_22.register(\"I_PRE_SLEEP", "C07-R3"),
+    _m("c07-reboot-direct-send", "C07", "handler.py", "    if sensor.reboot:\n        return msg.copy(", "    if sensor.reboot:\n        msg.gateway.tasks.add_job(msg.copy(child_id=SYSTEM_CHILD_ID, type=msg.gateway.const.MessageType.internal, ack=0, sub_type=msg.gateway.const.Internal.I_REBOOT, payload=\"\").encode)\n        return None\n    if sensor.reboot:\n        return msg.copy(", "C07-R1"),
+    _m("c07-benign-route-local", "C07", "__init__.py", "        reply = handler(msg)\n        reply = self._route_message(reply)\n        return reply.encode() if reply else None", "        reply = handler(msg)\n        routed = self._route_message(reply)\n        if not routed:\n            return None\n        return routed.encode()", "", silent=True),
+    # ------------------------------------------------------------------ C08
+    _m("c08-queue-pop-lifo", "C08", "handler.py", "job = sensor.queue.popleft()", "job = sensor.queue.pop()", "C08-R1"),
+    _m("c08-flush-single-pop", "C08", "handler.py", "    while sensor.queue:\n        job = sensor.queue.popleft()\n        msg.gateway.tasks.add_job(str, job)", "    if sensor.queue:\n        job = sensor.queue.popleft()\n        msg.gateway.tasks.add_job(str, job)", "C08-R2"),
+    _m("c08-flush-double-enqueue", "C08", "handler.py", "        msg.gateway.tasks.add_job(str, job)\n", "        msg.gateway.tasks.add_job(str, job)\n        msg.gateway.tasks.add_job(str, job)\n", "C08-R2"),
+    _m("c08-flush-desired-before-replies", "C08", "handler.py", "    sensor.init_smart_sleep_mode()\n\n    while sensor.queue:\n        job = sensor.queue.popleft()\n        msg.gateway.tasks.add_job(str, job)\n", "    sensor.init_smart_sleep_mode()\n", "C08-R2", count=1),
+    _m("c08-flush-iterates-desired-types", "C08", "handler.py", "        for value_type, _ in child.values.items():", "        for value_type, _ in new_child_state.values.items():", "C08-R2"),
+    _m("c08-no-confirmation", "C08", "sensor.py", "        new_state_child.values[value_type] = None", "        new_state_child.values[value_type] = value", "C08-R3"),
+    _m("c08-confirm-wrong-type", "C08", "sensor.py", "        new_state_child.values[value_type] = None", "        new_state_child.values[child_id] = None", "C08-R3"),
+    _m("c08-lookup-reported-first", "C08", "sensor.py", "        if value is not None:\n            return value\n\n        child = self.children[child_id]\n\n        return child.values.get(value_type)", "        child = self.children[child_id]\n        reported = child.values.get(value_type)\n        if reported is not None:\n            return reported\n        return value", "C08-R4"),
+    _m("c08-ctor-validates-node-version", "C08", "__init__.py", "        msg.validate(self.protocol_version)\n\n        return msg", "        msg.validate(sensor.protocol_version)\n\n        return msg", "C08-R5"),
+    _m("c08-benign-flush-local-tasks", "C08", "handler.py", "    while sensor.queue:\n        job = sensor.queue.popleft()\n        msg.gateway.tasks.add_job(str, job)", "    tasks = msg.gateway.tasks\n    while sensor.queue:\n        job = sensor.queue.popleft()\n        tasks.add_job(str, job)", "", silent=True),
 ]
 
 
